@@ -46,7 +46,8 @@ def run_plan(plan, version, fault_kind_impl=None):
             f = ev.get("fault", "none")
             events.append({"k": "apdu", "init": init, "fault": f})
     world.on_event = on_event
-    nreq = 2 + plan["connfail"]
+    bt = plan.get("btimeout", 0)
+    nreq = 2 + plan["connfail"] + (1 if bt else 0)
     first_len = None
     for r in range(nreq):
         cmd = plan["cmd"] if r == 0 else plan["follow"]
@@ -59,6 +60,9 @@ def run_plan(plan, version, fault_kind_impl=None):
             world.faults = {plan["pos"] - 1: (plan["kind"],)}
         if r == 1:
             world.connect_failures = plan["connfail"]
+        if bt and r == 1 + plan["connfail"]:
+            # the first reconnection that opens: its bt-th bring-up exchange times out
+            world.faults = {bt - 1: ("timeout",)}
         n0 = len(world.log)
         o = mgr.handle_line(proto, json.dumps(req).encode())
         if r == 0:
@@ -86,7 +90,8 @@ def run(ctx):
         "reference bring-up sequence = the APDUs observed at manager start against the same device",
         "link errors are not injected at the two EXIT exchanges of uiHeartbeat (the device's normal answer "
         "there is to drop the link, which the code treats as success); time-outs are",
-        "one injected fault per history; reconnection fails 0..2 times then succeeds",
+        "one injected fault per history; reconnection fails 0..2 times then succeeds; optionally one time-out at "
+        "exchange 2..4 of the repeated bring-up (not a link error: the repair stays owed)",
     ]
     traces, info = [], {}
     drift = 0
@@ -133,9 +138,9 @@ def run(ctx):
         if v["ok"]:
             accepted += 1
             continue
-        sig = "%s|v%d cmd=%s pos=%d kind=%s connfail=%d follow=%s" % (
+        sig = "%s|v%d cmd=%s pos=%d kind=%s connfail=%d follow=%s%s" % (
             v["clause"], 5 if inf["version"] == 2 else 1, p["cmd"], p["pos"], p["kind"], p["connfail"],
-            p["follow"] if v["at"] > 3 else "*")
+            p["follow"] if v["at"] > 3 else "*", (" bringup-timeout@%d" % p["btimeout"]) if p.get("btimeout") else "")
         res.violation(sig, "link-failure handling violates %s at event %s: %s" % (
             v["clause"], v["at"], json.dumps(p, sort_keys=True)),
             {"plan": p, "version": inf["version"], "events": t["ev"], "verdict": v})
